@@ -8,19 +8,21 @@ From Odf Require Import model.Base model.Chars model.XmlLex model.XmlTree model.
    with the style registration of build_caches; expected d: d with every tree normalised as a parser normalises it
    (canon: CDATA is text, adjacent text merged, unrepresentable characters replaced), the generator replaced by the
    library's, and as automatic styles those that content.xml and styles.xml carry (the referenced ones: C10).
+   finish: of the named automatic styles, one identical to the first of its name and element type is dropped (a list
+   style used by both parts arrives twice); it touches nothing else (C05_finish_section).
    all_regs d: the style names registered during the load, in order; NoDup = no automatic style is needed by both parts
    and no name is used twice (otherwise the second copy is renamed: C11). *)
 Theorem C04_roundtrip : forall env d, sections_ok d -> NoDup (all_regs d) ->
   doc_ok F env (settings_tree d) = true -> doc_ok F env (meta_tree tv d) = true ->
   doc_ok F env (content_tree RA d) = true -> doc_ok F env (styles_tree RA d) = true ->
   i_load_doc (d_mime d) (if has_kids (d_settings d) then xml_parse (i_settingsxml env d) else None)
-             (xml_parse (snd (i_metaxml env d))) (xml_parse (i_contentxml env d)) (xml_parse (i_stylesxml env d)) = expected d.
+             (xml_parse (snd (i_metaxml env d))) (xml_parse (i_contentxml env d)) (xml_parse (i_stylesxml env d)) = finish (expected d).
 Proof. exact save_load_roundtrip. Qed.
 Print Assumptions C04_roundtrip.
 
 (* the loader on the parsed parts alone (whatever produced the bytes) *)
 Theorem C04_load_of_parts : forall d, sections_ok d -> NoDup (all_regs d) ->
-  i_load_doc (d_mime d) (p_settings d) (p_meta d) (p_content d) (p_styles d) = expected d.
+  i_load_doc (d_mime d) (p_settings d) (p_meta d) (p_content d) (p_styles d) = finish (expected d).
 Proof. exact load_saved. Qed.
 Print Assumptions C04_load_of_parts.
 
@@ -37,6 +39,6 @@ Print Assumptions C04_attach_identity.
 
 (* the hypotheses are satisfiable and the whole pipeline runs on a concrete document *)
 Theorem C04_example :
-  i_load_doc (d_mime ex_d) None (xml_parse (snd (i_metaxml ex_env ex_d))) (xml_parse (i_contentxml ex_env ex_d)) (xml_parse (i_stylesxml ex_env ex_d)) = expected ex_d.
+  i_load_doc (d_mime ex_d) None (xml_parse (snd (i_metaxml ex_env ex_d))) (xml_parse (i_contentxml ex_env ex_d)) (xml_parse (i_stylesxml ex_env ex_d)) = finish (expected ex_d).
 Proof. exact ex_runs. Qed.
 Print Assumptions C04_example.
